@@ -24,7 +24,7 @@ LENGTHS = [1, 2, 3, 4, 5, 8, 9]
 
 TIERS = {
     'C18': {'quick': {'runs': 14000, 'budget_s': 100, 'chunk': 50},
-            'thorough': {'runs': 300000, 'budget_s': 1800, 'chunk': 200}},
+            'thorough': {'runs': 600000, 'budget_s': 1800, 'chunk': 200}},
 }
 
 RULE = {
@@ -166,6 +166,28 @@ def np_inverse(cfg, y, rshape):
         return np.fft.ifftn(y, axes=axes)
     n = np.prod([rshape[a] for a in axes])
     return np.fft.fftn(y, axes=axes) / n
+
+
+def ft_model(T, xa, sign):
+    """Stateless model of the continuous FourierTransform: the exact Fourier
+    transform (2 pi)^(-d/2) int f(x) exp(-+ i x xi) dx of the piecewise
+    constant interpolant of the samples, evaluated at the points of the
+    reciprocal grid by a direct O(N^2) sum per axis.  Independent of odl's
+    FFT + pre/post-processing route (phase factors, shifts, parity,
+    half-complex grids), which must reproduce it up to rounding."""
+    S, Rg = T.domain, T.range
+    out = np.asarray(xa).astype(np.complex128)
+    sg = -1j if sign == '-' else 1j
+    for a in T.axes:
+        xs = np.asarray(S.grid.coord_vectors[a], dtype=float)
+        xi = np.asarray(Rg.grid.coord_vectors[a], dtype=float)
+        h = float(S.cell_sides[a])
+        E = np.exp(sg * np.outer(xi, xs))
+        t = xi * h / 2
+        sinc = np.where(t == 0, 1.0, np.sin(t) / np.where(t == 0, 1.0, t))
+        K = (h * sinc / np.sqrt(2 * np.pi))[:, None] * E
+        out = np.moveaxis(np.tensordot(K, out, axes=([1], [a])), 0, a)
+    return out
 
 
 def site(cfg):
@@ -325,6 +347,30 @@ def _call(plan, cfg, objs, op, xs, ys, eps, ctx, fired, S, real_full):
                 S, 'fwd' if fwd else 'inv'),
                 '{}: differs from the numpy.fft formula by {:.3g} (tol '
                 '{:.3g}) [cfg {}]'.format(what, d, tol, cfg))
+    # (1b) continuous FT: direct-sum model of the forward transform; for
+    # the inverse objects, the forward model applied to the result must give
+    # back the argument (whenever the argument is a transform of something)
+    if cfg['cls'] == 'FT' and name != 'Ta':
+        T0 = objs['T']
+        ftol = 1e5 * eps * (SP.magnitude(ya) + SP.magnitude(xa) + 1.0) * \
+            max(1, xa.size)
+        if fwd:
+            ref = ft_model(T0, xa, cfg['sign'])
+            ok, d = SP.close(ya, ref.astype(ya.dtype), ftol)
+            if not ok:
+                raise Violation('C18', 'C18/ft-vs-direct-sum/{}/fwd'.format(S),
+                                '{}: differs from the direct-sum model of the '
+                                'continuous transform by {:.3g} (tol {:.3g}) '
+                                '[cfg {}]'.format(what, d, ftol, cfg))
+        elif not real_full:
+            ref = ft_model(T0, ya, cfg['sign'])
+            ok, d = SP.close(xa, ref.astype(xa.dtype), ftol)
+            if not ok:
+                raise Violation('C18', 'C18/ft-vs-direct-sum/{}/inv'.format(S),
+                                '{}: the direct-sum forward model applied to '
+                                'the result differs from the argument by '
+                                '{:.3g} (tol {:.3g}) [cfg {}]'.format(
+                                    what, d, ftol, cfg))
     # (2)/(4) stateless replicas, same and other back-end
     for impl in ('numpy', 'pyfftw'):
         Tf = _fresh(cfg, impl)
